@@ -883,7 +883,7 @@ func bindParams(call *ssa.Call) {
 }
 
 func constStrings(v ssa.Value, depth int, out *[]string) {
-	if depth > 8 || v == nil {
+	if depth > 24 || v == nil {
 		return
 	}
 	switch x := v.(type) {
@@ -896,6 +896,21 @@ func constStrings(v ssa.Value, depth int, out *[]string) {
 			*out = append(*out, constant.StringVal(x.Value))
 		}
 	case *ssa.Call:
+		// a path helper of the module (engine.statePath(msec), manifestPath()): its returned expression,
+		// with the helper's parameters standing for this call's arguments
+		if f := x.Call.StaticCallee(); f != nil && world.InModule(f) && f.Blocks != nil && isStringy(x.Type()) {
+			if len(f.Params) == len(x.Call.Args) {
+				for i, p := range f.Params {
+					constParamBind[p] = []ssa.Value{x.Call.Args[i]}
+				}
+			}
+			for _, ret := range world.Returns(f) {
+				for _, rv := range world.RetVals(ret) {
+					constStrings(rv, depth+1, out)
+				}
+			}
+			return
+		}
 		for _, a := range x.Call.Args {
 			constStrings(a, depth+1, out)
 		}
